@@ -326,6 +326,16 @@ def alt_table(prog, b):
                 l = op_local(o)
                 if l in maps:
                     idx[maps[l][0]] = {"index": k, "parser": maps[l][1]}
+                    continue
+                # an alternative that is itself a private parser function holding an `alt` of mapped alternatives (`end_marker`)
+                c = op_const(o)
+                tid = (c["fn"].get("inst") or c["fn"]["def"]) if c is not None and "fn" in c else None
+                sub = prog.bodies.get(tid)
+                if sub is not None and sub.crate == b.crate and sub.id != b.id and "ParsedComponent" in sub.raw.get("sig", "") + sub.local_ty(0):
+                    inner = alt_table(prog, sub) or {}
+                    for v, info in inner.items():
+                        if v not in idx:
+                            idx[v] = {"index": k, "parser": info.get("parser"), "sub": info["index"], "in": sub.id}
             if len(idx) >= 2:
                 out = idx
     return out or None
